@@ -374,3 +374,155 @@ func ruleKeyedByOwnField(c *Ctx, rule string, fns []*FuncInfo, typPkg, typ, fiel
 	}
 	c.Floor(rule, "stores into maps of *"+typ, 2, n)
 }
+
+// ruleFreshMergeTarget: an option merger copies fields into the accumulator; a pointer field of the
+// accumulator that the merger writes through (acc.F.G = …) is only ever set to a fresh allocation in
+// that merger. Adopting an option's own pointer (acc.F = opt.F) makes every later merge write into the
+// caller's option — which may be a shared table entry.
+func ruleFreshMergeTarget(c *Ctx, rule string, fns []*FuncInfo, what string) {
+	p := c.P
+	c.Rule(rule, what+": a pointer field of the accumulator that the merger writes through is only assigned a fresh allocation (&T{} / new), never an option's own pointer")
+	n := 0
+	for _, fn := range fns {
+		if fn.Decl.Body == nil || !strings.HasPrefix(fn.Decl.Name.Name, "Apply") {
+			continue
+		}
+		info := fn.Info()
+		// paths written through: P such that `P.G = …` occurs
+		through := map[string]bool{}
+		ast.Inspect(fn.Decl.Body, func(k ast.Node) bool {
+			as, ok := k.(*ast.AssignStmt)
+			if !ok {
+				return true
+			}
+			for _, l := range as.Lhs {
+				if sel, ok := ast.Unparen(l).(*ast.SelectorExpr); ok {
+					if inner, ok := ast.Unparen(sel.X).(*ast.SelectorExpr); ok {
+						if _, isPtr := info.TypeOf(inner).(*types.Pointer); isPtr {
+							through[exprString(inner)] = true
+						}
+					}
+				}
+			}
+			return true
+		})
+		ast.Inspect(fn.Decl.Body, func(k ast.Node) bool {
+			as, ok := k.(*ast.AssignStmt)
+			if !ok || len(as.Lhs) != len(as.Rhs) {
+				return true
+			}
+			for i, l := range as.Lhs {
+				if !through[exprString(ast.Unparen(l))] {
+					continue
+				}
+				n++
+				r := ast.Unparen(as.Rhs[i])
+				fresh := false
+				if u, ok := r.(*ast.UnaryExpr); ok && u.Op == token.AND {
+					_, fresh = ast.Unparen(u.X).(*ast.CompositeLit)
+				}
+				if call, ok := isBuiltinCall(info, r, "new"); ok && call != nil {
+					fresh = true
+				}
+				c.Check(fresh, rule, fn.Key()+": "+exprString(l)+" is set to a fresh allocation", p.Pos(as), fn.Key(), exprString(l)+" = &T{} before fields are merged into it", "assigned "+exprString(r)+", an existing object that later merges write into")
+			}
+			return true
+		})
+	}
+	c.Floor(rule, "accumulator pointer fields that are written through", 1, n)
+}
+
+// ruleNilErrorMethod: err.Error() on an error variable is reached only where the variable is known
+// non-nil. (A nil error interface has no method table: the call panics, and in a goroutine outside the
+// RPC server's recovery that ends the process.)
+func ruleNilErrorMethod(c *Ctx, rule string, fns []*FuncInfo, scope string) {
+	_ = c.P
+	c.Rule(rule, "every <err>.Error() on an error variable in "+scope+" is dominated by <err> != nil")
+	n := 0
+	for _, fn := range fns {
+		if fn.Decl.Body == nil {
+			continue
+		}
+		info := fn.Info()
+		ast.Inspect(fn.Decl.Body, func(k ast.Node) bool {
+			call, ok := k.(*ast.CallExpr)
+			if !ok || len(call.Args) != 0 {
+				return true
+			}
+			sel, ok := ast.Unparen(call.Fun).(*ast.SelectorExpr)
+			if !ok || sel.Sel.Name != "Error" {
+				return true
+			}
+			id, ok := ast.Unparen(sel.X).(*ast.Ident)
+			if !ok {
+				return true
+			}
+			v, ok := info.ObjectOf(id).(*types.Var)
+			if !ok || v.IsField() || !types.Identical(v.Type(), types.Universe.Lookup("error").Type()) {
+				return true
+			}
+			n++
+			c.Require(rule, fn.Key()+": "+id.Name+".Error()", fn, call, id.Name+" != nil", nil)
+			return true
+		})
+	}
+	c.Floor(rule, "<err>.Error() calls on error variables", 10, n)
+}
+
+// ruleIntDivGuard: an integer division or remainder whose divisor is not a constant is dominated by a
+// test that the divisor is not zero (integer division by zero panics; floating point does not).
+func ruleIntDivGuard(c *Ctx, rule string, fns []*FuncInfo, scope string) {
+	p := c.P
+	c.Rule(rule, "every integer / or % in "+scope+" has a non-zero constant divisor or a divisor that is tested against zero on every path to it")
+	n := 0
+	for _, fn := range fns {
+		if fn.Decl.Body == nil {
+			continue
+		}
+		info := fn.Info()
+		ast.Inspect(fn.Decl.Body, func(k ast.Node) bool {
+			var x, y ast.Expr
+			var at ast.Node
+			switch t := k.(type) {
+			case *ast.BinaryExpr:
+				if t.Op == token.QUO || t.Op == token.REM {
+					x, y, at = t.X, t.Y, t
+				}
+			case *ast.AssignStmt:
+				if (t.Tok == token.QUO_ASSIGN || t.Tok == token.REM_ASSIGN) && len(t.Lhs) == 1 && len(t.Rhs) == 1 {
+					x, y, at = t.Lhs[0], t.Rhs[0], t
+				}
+			}
+			if at == nil || !isIntegerType(info.TypeOf(x)) {
+				return true
+			}
+			if tv := info.Types[y]; tv.Value != nil {
+				return true // a constant divisor: the compiler rejects a constant zero
+			}
+			n++
+			d := ast.Unparen(y)
+			// conversions of a path are the path
+			for {
+				call, ok := d.(*ast.CallExpr)
+				if !ok || len(call.Args) != 1 || !info.Types[call.Fun].IsType() {
+					break
+				}
+				d = ast.Unparen(call.Args[0])
+			}
+			key := fn.Key() + ": divisor " + exprString(y)
+			if !isPurePath(d) {
+				if lc, ok := isBuiltinCall(info, d, "len"); ok && lc != nil {
+					c.Require(rule, key, fn, at, exprString(d)+" > 0", nil)
+					return true
+				}
+				c.Bad(rule, key, p.Pos(at), fn.Key(), "a divisor that is a constant or a tested variable", "the divisor is a computed expression that can be zero")
+				return true
+			}
+			c.Require(rule, key, fn, at, exprString(d)+" != 0", nil)
+			return true
+		})
+	}
+	if n == 0 {
+		c.OK(rule, "integer divisions with a non-constant divisor", "", "", "none")
+	}
+}
